@@ -391,7 +391,16 @@ func vf10Gauges(ep *drive.Endpoint, wc *vf10Conn, out *vf10Out, ctx string) stri
 		out.magicFound = true
 	}
 	if c.rxBuf != nil {
-		l, cp := c.rxBuf.Len(), c.rxBuf.Cap()
+		// (through interfaces, so that a change of the buffer's type - bytes.Buffer,
+		// bytes.Reader, ... - does not stop the package's harness from compiling)
+		var buf any = c.rxBuf
+		l, cp := 0, 0
+		if x, ok := buf.(interface{ Len() int }); ok {
+			l = x.Len()
+		}
+		if x, ok := buf.(interface{ Cap() int }); ok {
+			cp = x.Cap()
+		}
 		if l > out.maxRxBuf {
 			out.maxRxBuf = l
 		}
